@@ -4,3 +4,6 @@ INVARIANT J_BuildAsModel
 INVARIANT J_AnswersAsModel
 INVARIANT J_PragmaticAsModel
 INVARIANT J_ApproxSymmetric
+INVARIANT J_CoordIndexIsBijection
+INVARIANT J_ApproxSeparates
+INVARIANT J_ApproxDurationFromSpeed
